@@ -47,7 +47,7 @@ func init() {
 		Batches: func(t string) int {
 			return 16
 		},
-		Rule: "each case = 200 key tuples + their boundary neighbours (A,B), 300 hostile byte strings for SplitKeys (C), 14 container histories (D). Tuples: depth 1-4 of strings/bytes/ints/bools/addresses/big ints/HexInt/byte from a small adversarial pool ('ab'+'c' vs 'a'+'bc', empty parts, single bytes < 0x80 and >= 0x80, 55/56/255/256-byte parts, parts that look like RLP headers, int 65 vs 'A'); every tuple and its neighbours (boundary moved, two parts merged, one part split, part replaced by its own RLP encoding, empty part inserted, type changed with same bytes) are keyed by RLP/hash/prefixed-hash builders, scoredb.ToKey/AppendKeys with random Append chaining, and entered in a per-case map key->byte-level parts: same key with different parts = collision; the harness' own value->bytes conversion defines the parts. Histories: 2-3 vars, 2-3 arrays, 2-3 dicts (depth 1-3, also through GetDB sub-dictionaries) with prefix-free adversarial names in ONE real account store (state.WorldState account), 60-120 ops vs slice/map models, every op's result compared and all containers re-read at the end. Live sibling handles: 30 sets per case of 4-6 builders derived from one parent builder (parent appended to 0-2 times; hash/NewHashKey/prefixed-hash/rlp) with Build() of every handle re-checked after each derivation against its first Build() and against the same path built from scratch, sibling keys pairwise distinct; 4 nested histories per case: DictDB of depth 3-4 (scoredb with extra prefix keys, or containerdb with hash/prefixed/rlp builders) where sub-dictionary handles derived by GetDB are all kept alive and 70-130 set/get/delete ops go through old and new handles and through the root with the full path, plus sibling ArrayDB/VarDB created from one shared parent builder, vs map/slice models. Non-trivial = distinct tuple pair (tuple, neighbour) with different parts, or distinct history in which an array was popped to empty and refilled or a nested dict entry was overwritten and deleted.",
+		Rule: "each case = 200 key tuples + their boundary neighbours (A,B), 300 hostile byte strings for SplitKeys (C), 14 container histories (D). Tuples: depth 1-4 of strings/bytes/ints/bools/addresses/big ints/HexInt/byte from a small adversarial pool ('ab'+'c' vs 'a'+'bc', empty parts, single bytes < 0x80 and >= 0x80, 55/56/255/256-byte parts, parts that look like RLP headers, int 65 vs 'A'); every tuple and its neighbours (boundary moved, two parts merged, one part split, part replaced by its own RLP encoding, empty part inserted, type changed with same bytes) are keyed by RLP/hash/prefixed-hash builders, scoredb.ToKey/AppendKeys with random Append chaining, and entered in a per-case map key->byte-level parts: same key with different parts = collision; the harness' own value->bytes conversion defines the parts. Histories: 2-3 vars, 2-3 arrays, 2-3 dicts (depth 1-3, also through GetDB sub-dictionaries) with prefix-free adversarial names in ONE real account store (state.WorldState account), 60-120 ops vs slice/map models, every op's result compared and all containers re-read at the end. Live sibling handles: 30 sets per case of 4-6 builders derived from one parent builder (parent appended to 0-2 times; hash/NewHashKey/prefixed-hash/rlp) with Build() of every handle re-checked after each derivation against its first Build() and against the same path built from scratch, sibling keys pairwise distinct; 4 nested histories per case: DictDB of depth 3-4 (scoredb with extra prefix keys, or containerdb with hash/prefixed/rlp builders) where sub-dictionary handles derived by GetDB are all kept alive and 70-130 set/get/delete ops go through old and new handles and through the root with the full path, plus sibling ArrayDB/VarDB created from one shared parent builder, vs map/slice models. Handle histories (5 per case): 2 arrays, a dict and a var in one account store, each with 2-4 live handles on the SAME path used alternately for 80-140 ops, with AccountState snapshots and Reset (rollback of the store) while all handles stay alive, vs the one model per container; at the end every old handle and a fresh one must read the same array/map/variable. Non-trivial = distinct tuple pair (tuple, neighbour) with different parts, or distinct history in which an array was popped to empty and refilled or a nested dict entry was overwritten and deleted.",
 		MinNonTrivial: func(t string) int {
 			if t == ev.Thorough {
 				return 1000000
@@ -61,7 +61,8 @@ func init() {
 			"histories", "final_rereads",
 			"sibling_sets", "sibling_sets_parent_appended", "sibling_sets_hash", "sibling_sets_newhashkey", "sibling_sets_prefixed_hash", "sibling_sets_rlp",
 			"sibling_builds_after_derivation", "nested_histories", "nested_sibling_handles_derived", "nested_ops_via_older_sibling",
-			"nested_root_fullpath_reads", "nested_dict_set", "nested_dict_delete", "sibling_containers_from_shared_builder", "sibling_array_ops"},
+			"nested_root_fullpath_reads", "nested_dict_set", "nested_dict_delete", "sibling_containers_from_shared_builder", "sibling_array_ops",
+			"handle_histories", "ops_via_second_live_handle", "ops_on_live_handle_after_rollback", "store_rollbacks_with_live_handles", "handles_array_put"},
 		Assumptions: []string{"SHA3-256 collision free on the generated keys",
 			"byte-level parts of a typed value: string/bytes as is, bool 01/00, integers minimal big-endian two's complement (0 = 00), address 21 bytes; values with equal bytes are the same path by design",
 			"raw builder (plain concatenation by design) excluded; containers whose name tuple is a prefix of another container's name tuple (same type) are the same path family by design and are not generated",
@@ -987,6 +988,12 @@ func run(c *ev.Ctx) {
 		hostileChecks(c, r)
 		if c.Stopped() {
 			return
+		}
+		for h := 0; h < handleHistoriesPerCase && !c.Stopped(); h++ {
+			seed := r.Int63()
+			c.Note("handle-history %d seed %d", h, seed)
+			c.Eval(1)
+			handleHistory(c, rand.New(rand.NewSource(seed)), h)
 		}
 		c.Note("sibling builders")
 		siblingBuilderChecks(c, r)
